@@ -16,13 +16,7 @@ def rd(name):
 
 # names of everything that is assumed (external_body / assume_specification) in this batch: the Verus TCB ledger
 TRUSTED = [
-    'verif_unreachable', 'core::result::Result::<T,E>::and_then',
-    # EndianSlice: pointer-based methods (positional clauses are discharged by Kani K-ESLICE)
-    'offset_from', 'offset_id', 'lookup_offset_id', 'find',
-    # R-STUB: trait-required integer/LEB reads on EndianSlice (discharged by Kani K-PRIM / K-LEB)
-    'read_u8', 'read_i8', 'read_u16', 'read_i16', 'read_u32', 'read_i32', 'read_u64', 'read_i64', 'read_u128',
-    'read_f32', 'read_f64', 'read_uint', 'read_uleb128', 'read_uleb128_u32', 'read_uleb128_u16', 'read_sleb128',
-    'skip_leb128',
+    'verif_unreachable', 'core::result::Result::<T,E>::and_then', 'reader_clone',
 ]
 
 DW_TYPES = ['DwUt', 'DwCfa', 'DwChildren', 'DwTag', 'DwAt', 'DwForm', 'DwAte', 'DwLle', 'DwDs', 'DwEnd', 'DwAccess',
@@ -38,10 +32,14 @@ GHOST = '''
     spec fn rv(&self) -> RView;
 '''
 
+O = 'old(self).rv()'
+F = 'final(self).rv()'
+
+
 def fixed_read(reader, name, n, val):
-    ens = [f'[C09:fixed-consume][C10:view] res is Ok ==> adv(old(self).rv(), final(self).rv(), {n})',
-           f'[C01:err-no-consume] res is Err ==> unch(old(self).rv(), final(self).rv())',
-           f'[C01:eof-exact] res is Err <==> old(self).rv().bytes.len() < {n}']
+    ens = [f'[C09:fixed-consume][C10:view] res is Ok ==> adv({O}, {F}, {n})',
+           f'[C01:err-no-consume] res is Err ==> unch({O}, {F})',
+           f'[C01:eof-exact] res is Err <==> {O}.len < {n}']
     if val:
         ens.append(f'[C09:fixed-value] res matches Ok(v) ==> {val}')
     reader.splice(name, ret='res', ensures=ens)
@@ -52,7 +50,6 @@ def populate(ctx, sk, dw_types=None):
     rmod = Source('read/mod.rs', ctx)
     rds = Source('read/reader.rs', ctx)
     lb = Source('leb128.rs', ctx)
-    es = Source('read/endian_slice.rs', ctx)
 
     sk.module('vspec', 'use vstd::arithmetic::power2::*;')
     sk.add('vspec', rd('specs/core.rs'), label='vspec')
@@ -98,18 +95,18 @@ pub trait Endianity: Debug + Default + Clone + Copy + PartialEq + Eq {
     sk.add('leb128', low)
     lr = lb.item(r'^pub mod read \{', label='read').clean()
     lr.insert_after('pub mod read {', '\n    use vstd::prelude::*;\n    use crate::read::reader::*;\n    use crate::vspec::*;\n    broadcast use crate::vspec::group_seq_views;\n')
-    PROG = '[C01:leb-progress] res is Ok ==> final(r).rv().bytes.len() < old(r).rv().bytes.len()'
+    PROG = '[C01:leb-progress] res is Ok ==> final(r).rv().len < old(r).rv().len'
     FRAME = '[C01:frame] within(old(r).rv(), final(r).rv())'
     lr.splice('skip', ret='res', ensures=[PROG, FRAME],
-              loops={0: 'invariant within(old(r).rv(), r.rv()),\n decreases r.rv().bytes.len()'}, owners=['C01', 'C09'])
+              loops={0: 'invariant within(old(r).rv(), r.rv()),\n decreases r.rv().len'}, owners=['C01', 'C09'])
     BV = ('proof { assert(1u8 << 7 == 0x80u8) by (bit_vector); assert(1u8 << 6 == 0x40u8) by (bit_vector); '
           'assert(byte == 0u8 || byte == 1u8 ==> byte & 0x80u8 == 0u8) by (bit_vector); '
           'assert(byte == 0u8 || byte == 0x7fu8 ==> byte & 0x80u8 == 0u8) by (bit_vector); }')
     lr.splice('unsigned', ret='res', ensures=[PROG, FRAME],
-              loops={0: 'invariant_except_break within(old(r).rv(), r.rv()), r.rv().bytes.len() < old(r).rv().bytes.len(), 7 <= shift <= 63, shift % 7 == 0, \n ensures false, decreases 70 - shift'},
+              loops={0: 'invariant_except_break within(old(r).rv(), r.rv()), r.rv().len < old(r).rv().len, 7 <= shift <= 63, shift % 7 == 0, \n ensures false, decreases 70 - shift'},
               before=[('shift += 7;', BV)], owners=['C01', 'C09'])
     lr.splice('signed', ret='res', ensures=[PROG, FRAME],
-              loops={0: 'invariant_except_break within(old(r).rv(), r.rv()), 0 <= shift <= 63, shift % 7 == 0,\n ensures within(old(r).rv(), r.rv()), r.rv().bytes.len() < old(r).rv().bytes.len(), 7 <= shift <= 70, shift % 7 == 0, decreases 70 - shift'},
+              loops={0: 'invariant_except_break within(old(r).rv(), r.rv()), 0 <= shift <= 63, shift % 7 == 0,\n ensures within(old(r).rv(), r.rv()), r.rv().len < old(r).rv().len, 7 <= shift <= 70, shift % 7 == 0, decreases 70 - shift'},
               before=[('shift += 7;', BV)], owners=['C01', 'C09'])
     lr.splice('u16', ret='res', ensures=[PROG, FRAME],
               before=[('result += u16::from(byte) << 14;', 'proof { assert(byte <= 3u8 ==> (byte as u16) << 14u16 <= 0xc000u16) by (bit_vector); assert(forall|a: u16, b: u16| a < 128 && b < 128 ==> (a | (b << 7u16)) < 0x4000u16) by (bit_vector); }')],
@@ -122,10 +119,12 @@ use core::fmt;
 use crate::constants;
 use crate::common::*;
 pub use self::reader::*;
-pub use self::endian_slice::*;
 pub type Result<T> = result::Result<T, Error>;''')
     sk.add('read', rmod.item(r'^pub enum Error \{').clean())
-    sk.add('read', rmod.item(r'^impl Register \{').clean().own(['C01']))
+    sk.add('read', rmod.item(r'^impl Register \{').clean().own(['C01']).splice('from_u64', ret='res', ensures=[
+        '[C01:checked-width] res matches Ok(r) ==> r.0 as int == x as int', 'res is Err <==> x > 0xffff'],
+        before=[('if u64::from(y) == x {', 'proof { assert((x as u16) as u64 == x <==> x <= 0xffffu64) by (bit_vector); }')]))
+    sk.add('read', rmod.item(r'^pub struct UnitOffset<').clean())
 
     sk.module('read::reader', '''use core::fmt::Debug;
 use core::hash::Hash;
@@ -149,6 +148,10 @@ broadcast use crate::vspec::group_seq_views;''')
     sk.add('read::reader', rot)
     rou = rds.item(r'^impl ReaderOffset for usize', label='ReaderOffset for usize').clean()
     rou.insert_members('    open spec fn as_nat(self) -> nat { self as nat }')
+    rou.splice('from_i16', ret='res', ensures=['res as int == (if offset >= 0 { offset as int } else { offset as int + 0x1_0000_0000_0000_0000 })'],
+               before=[('offset as usize', 'proof { assert(offset < 0 ==> (offset as usize) as int == offset as int + 0x1_0000_0000_0000_0000) by (bit_vector); assert(offset >= 0 ==> (offset as usize) as int == offset as int) by (bit_vector); }')])
+    rou.splice('wrapping_add', ret='res', ensures=['res as int == (self as int + other as int) % 0x1_0000_0000_0000_0000'])
+    rou.splice('checked_sub', ret='res', ensures=['res == (if self >= other { Some((self - other) as usize) } else { None::<usize> })'])
     rou.own(['C01', 'C09'])
     sk.add('read::reader', rou)
 
@@ -172,9 +175,18 @@ broadcast use crate::vspec::group_seq_views;''')
     MASK_BV = ('proof { assert(address & !0xffu64 == 0 <==> address <= 0xffu64) by (bit_vector); assert(address & !0xffffu64 == 0 <==> address <= 0xffffu64) by (bit_vector); '
                'assert(address & !0xffff_ffffu64 == 0 <==> address <= 0xffff_ffffu64) by (bit_vector); assert(address & !0xffff_ffff_ffff_ffffu64 == 0) by (bit_vector); }')
     rau.splice('add_sized', before=[('if address & !mask != 0 {', MASK_BV)])
-    rau.splice('wrapping_add_sized', before=[('self.wrapping_add(length) & mask', 'proof { let w = self.wrapping_add(length); assert(w & 0xffu64 == w % 0x100u64) by (bit_vector); assert(w & 0xffffu64 == w % 0x10000u64) by (bit_vector); assert(w & 0xffff_ffffu64 == w % 0x1_0000_0000u64) by (bit_vector); assert(w & 0xffff_ffff_ffff_ffffu64 == w) by (bit_vector); '
+    rau.splice('wrapping_add_sized', before=[('self.wrapping_add(length) & mask', 'proof { let w = self.wrapping_add(length); '
+        'assert(w & 0xffu64 == w % 0x100u64) by (bit_vector); assert(w & 0xffffu64 == w % 0x10000u64) by (bit_vector); '
+        'assert(w & 0xffff_ffffu64 == w % 0x1_0000_0000u64) by (bit_vector); assert(w & 0xffff_ffff_ffff_ffffu64 == w) by (bit_vector); '
         'let x = self as int + length as int; assert(w as int == if x > 0xffff_ffff_ffff_ffff { x - 0x1_0000_0000_0000_0000 } else { x }); '
-        'assert((x - 0x1_0000_0000_0000_0000) % 0x100 == x % 0x100); assert((x - 0x1_0000_0000_0000_0000) % 0x10000 == x % 0x10000); assert((x - 0x1_0000_0000_0000_0000) % 0x1_0000_0000 == x % 0x1_0000_0000); assert((x - 0x1_0000_0000_0000_0000) % 0x1_0000_0000_0000_0000 == x % 0x1_0000_0000_0000_0000); }')])
+        'vstd::arithmetic::div_mod::lemma_mod_multiples_vanish(-0x100_0000_0000_0000int, x, 0x100); '
+        'vstd::arithmetic::div_mod::lemma_mod_multiples_vanish(-0x1_0000_0000_0000int, x, 0x10000); '
+        'vstd::arithmetic::div_mod::lemma_mod_multiples_vanish(-0x1_0000_0000int, x, 0x1_0000_0000); '
+        'vstd::arithmetic::div_mod::lemma_mod_multiples_vanish(-1int, x, 0x1_0000_0000_0000_0000); '
+        'assert(0x100 * -0x100_0000_0000_0000int + x == x - 0x1_0000_0000_0000_0000); '
+        'assert(0x10000 * -0x1_0000_0000_0000int + x == x - 0x1_0000_0000_0000_0000); '
+        'assert(0x1_0000_0000 * -0x1_0000_0000int + x == x - 0x1_0000_0000_0000_0000); '
+        'assert(0x1_0000_0000_0000_0000 * -1int + x == x - 0x1_0000_0000_0000_0000); }')])
     rau.own(['C01', 'C08'])
     sk.add('read::reader', rau)
 
@@ -192,136 +204,102 @@ broadcast use crate::vspec::group_seq_views;''')
     reader.clean(offset=False)
     reader.insert_after('type Offset: ReaderOffset;', GHOST)
     reader.own(['C01'])
-    fixed_read(reader, 'read_u8', 1, 'v == old(self).rv().bytes[0]')
-    fixed_read(reader, 'read_i8', 1, 'v as int == sext(old(self).rv().bytes[0] as nat, 8)')
-    fixed_read(reader, 'read_u16', 2, 'v as nat == uint_of(old(self).rv().bytes.take(2), old(self).rv().be)')
-    fixed_read(reader, 'read_i16', 2, 'v as int == sext(uint_of(old(self).rv().bytes.take(2), old(self).rv().be), 16)')
-    fixed_read(reader, 'read_u32', 4, 'v as nat == uint_of(old(self).rv().bytes.take(4), old(self).rv().be)')
-    fixed_read(reader, 'read_i32', 4, 'v as int == sext(uint_of(old(self).rv().bytes.take(4), old(self).rv().be), 32)')
-    fixed_read(reader, 'read_u64', 8, 'v as nat == uint_of(old(self).rv().bytes.take(8), old(self).rv().be)')
-    fixed_read(reader, 'read_i64', 8, 'v as int == sext(uint_of(old(self).rv().bytes.take(8), old(self).rv().be), 64)')
-    fixed_read(reader, 'read_u128', 16, 'v as nat == uint_of(old(self).rv().bytes.take(16), old(self).rv().be)')
+    fixed_read(reader, 'read_u8', 1, f'v == {O}.at(0)')
+    fixed_read(reader, 'read_i8', 1, f'v as int == sext({O}.at(0) as nat, 8)')
+    fixed_read(reader, 'read_u16', 2, f'v as nat == {O}.u(0, 2)')
+    fixed_read(reader, 'read_i16', 2, f'v as int == {O}.s(0, 2)')
+    fixed_read(reader, 'read_u32', 4, f'v as nat == {O}.u(0, 4)')
+    fixed_read(reader, 'read_i32', 4, f'v as int == {O}.s(0, 4)')
+    fixed_read(reader, 'read_u64', 8, f'v as nat == {O}.u(0, 8)')
+    fixed_read(reader, 'read_i64', 8, f'v as int == {O}.s(0, 8)')
+    fixed_read(reader, 'read_u128', 16, f'v as nat == {O}.u(0, 16)')
     fixed_read(reader, 'read_f32', 4, None)
     fixed_read(reader, 'read_f64', 8, None)
     reader.splice('read_uint', ret='res', requires=['[C09:read-uint-n] 1 <= n <= 8'], ensures=[
-        '[C09:fixed-consume] res is Ok ==> adv(old(self).rv(), final(self).rv(), n as nat)',
-        '[C01:err-no-consume] res is Err ==> unch(old(self).rv(), final(self).rv())',
-        '[C01:eof-exact] res is Err <==> old(self).rv().bytes.len() < n',
-        '[C09:fixed-value] res matches Ok(v) ==> v as nat == uint_of(old(self).rv().bytes.take(n as int), old(self).rv().be)'])
+        f'[C09:fixed-consume] res is Ok ==> adv({O}, {F}, n as nat)',
+        f'[C01:err-no-consume] res is Err ==> unch({O}, {F})',
+        f'[C01:eof-exact] res is Err <==> {O}.len < n',
+        f'[C09:fixed-value] res matches Ok(v) ==> v as nat == {O}.u(0, n as int)'])
     reader.splice('endian', ret='res', ensures=['res.big() == self.rv().be'])
-    reader.splice('len', ret='res', ensures=['res.as_nat() == self.rv().bytes.len()'])
-    reader.splice('empty', ensures=['final(self).rv().bytes.len() == 0', 'final(self).rv().be == old(self).rv().be',
-                                    'final(self).rv().tracks == old(self).rv().tracks', 'final(self).rv().sec == old(self).rv().sec'])
+    reader.splice('len', ret='res', ensures=['res.as_nat() == self.rv().len'])
+    reader.splice('empty', ensures=[f'{F}.len == 0', f'{F}.be == {O}.be', f'{F}.root == {O}.root'])
     reader.splice('truncate', ret='res', ensures=[
-        '[C10:view] res is Ok ==> window(old(self).rv(), final(self).rv(), 0, len.as_nat())',
-        '[C01:err-no-consume] res is Err ==> unch(old(self).rv(), final(self).rv())',
-        '[C01:eof-exact] res is Err <==> old(self).rv().bytes.len() < len.as_nat()'])
+        f'[C10:view] res is Ok ==> trunc({O}, {F}, len.as_nat())',
+        f'[C01:err-no-consume] res is Err ==> unch({O}, {F})',
+        f'[C01:eof-exact] res is Err <==> {O}.len < len.as_nat()'])
     reader.splice('skip', ret='res', ensures=[
-        '[C10:view] res is Ok ==> adv(old(self).rv(), final(self).rv(), len.as_nat())',
-        '[C01:err-no-consume] res is Err ==> unch(old(self).rv(), final(self).rv())',
-        '[C01:eof-exact] res is Err <==> old(self).rv().bytes.len() < len.as_nat()'])
+        f'[C10:view] res is Ok ==> adv({O}, {F}, len.as_nat())',
+        f'[C01:err-no-consume] res is Err ==> unch({O}, {F})',
+        f'[C01:eof-exact] res is Err <==> {O}.len < len.as_nat()'])
     reader.splice('split', ret='res', ensures=[
-        '[C10:view] res matches Ok(r) ==> adv(old(self).rv(), final(self).rv(), len.as_nat()) && window(old(self).rv(), r.rv(), 0, len.as_nat())',
-        '[C01:err-no-consume] res is Err ==> unch(old(self).rv(), final(self).rv())',
-        '[C01:eof-exact] res is Err <==> old(self).rv().bytes.len() < len.as_nat()'])
+        f'[C10:view] res matches Ok(r) ==> adv({O}, {F}, len.as_nat()) && window({O}, r.rv(), 0, len.as_nat())',
+        f'[C01:err-no-consume] res is Err ==> unch({O}, {F})',
+        f'[C01:eof-exact] res is Err <==> {O}.len < len.as_nat()'])
     reader.splice('find', ret='res', ensures=[
-        'res matches Ok(i) ==> i.as_nat() < self.rv().bytes.len() && self.rv().bytes[i.as_nat() as int] == byte && forall|j: int| 0 <= j < i.as_nat() ==> self.rv().bytes[j] != byte',
-        'res is Err ==> forall|j: int| 0 <= j < self.rv().bytes.len() ==> self.rv().bytes[j] != byte'])
-    reader.splice('offset_from', ret='res', requires=['self.rv().tracks ==> base.rv().tracks && self.rv().sec == base.rv().sec && base.rv().pos <= self.rv().pos'],
-                  ensures=['[C10:offset-from] self.rv().tracks ==> res.as_nat() == self.rv().pos - base.rv().pos'])
+        'res matches Ok(i) ==> i.as_nat() < self.rv().len && self.rv().at(i.as_nat() as int) == byte && forall|j: int| 0 <= j < i.as_nat() ==> self.rv().at(j) != byte',
+        'res is Err ==> forall|j: int| 0 <= j < self.rv().len ==> self.rv().at(j) != byte'])
+    reader.splice('offset_from', ret='res', requires=['[C10:offset-from-pre] self.rv().root == base.rv().root && base.rv().start <= self.rv().start'],
+                  ensures=['[C10:offset-from] res.as_nat() == self.rv().start - base.rv().start'])
     reader.splice('read_slice', ret='res', ensures=[
-        'res is Ok ==> adv(old(self).rv(), final(self).rv(), old(buf)@.len()) && final(buf)@ == old(self).rv().bytes.take(old(buf)@.len() as int)',
-        'res is Err ==> unch(old(self).rv(), final(self).rv())', 'final(buf)@.len() == old(buf)@.len()',
-        'res is Err <==> old(self).rv().bytes.len() < old(buf)@.len()'])
+        f'res is Ok ==> adv({O}, {F}, old(buf)@.len()) && final(buf)@ == {O}.root.subrange({O}.start as int, ({O}.start + old(buf)@.len()) as int)',
+        f'res is Err ==> unch({O}, {F})', 'final(buf)@.len() == old(buf)@.len()',
+        f'res is Err <==> {O}.len < old(buf)@.len()'])
     # R-DELEGATE: LEB128 reads carry the spec of DESIGN A.1; proved on EndianSlice by Kani K-LEB (complete)
+    LEBADV = f'{O}.leb_ok(0) && adv({O}, {F}, {O}.leb_len(0))'
     reader.splice('skip_leb128', ret='res', ensures=[
-        '[C09:leb-skip] res is Ok ==> leb_terminated(old(self).rv().bytes) && adv(old(self).rv(), final(self).rv(), leb_len(old(self).rv().bytes))',
-        '[C01:frame] within(old(self).rv(), final(self).rv())', 'res is Err ==> !leb_terminated(old(self).rv().bytes)'])
+        f'[C09:leb-skip] res is Ok ==> {LEBADV}',
+        f'[C01:frame] within({O}, {F})', f'res is Err ==> !{O}.leb_ok(0)'])
     reader.splice('read_uleb128', ret='res', ensures=[
-        '[C09:uleb-value] res matches Ok(v) ==> leb_terminated(old(self).rv().bytes) && adv(old(self).rv(), final(self).rv(), leb_len(old(self).rv().bytes)) && v as nat == uleb_value(old(self).rv().bytes)',
-        '[C09:uleb-reject] res is Err ==> !leb_terminated(old(self).rv().bytes) || uleb_value(old(self).rv().bytes) > u64::MAX || leb_len(old(self).rv().bytes) > 10',
-        '[C01:frame] within(old(self).rv(), final(self).rv())', 'leb_len(old(self).rv().bytes) >= 1'])
+        f'[C09:uleb-value] res matches Ok(v) ==> {LEBADV} && v as nat == {O}.uleb(0)',
+        f'[C09:uleb-reject] res is Err ==> !{O}.leb_ok(0) || {O}.uleb(0) > u64::MAX || {O}.leb_len(0) > 10',
+        f'[C01:frame] within({O}, {F})', f'{O}.leb_len(0) >= 1'])
     reader.splice('read_uleb128_u32', ret='res', ensures=[
-        '[C09:uleb-value] res matches Ok(v) ==> leb_terminated(old(self).rv().bytes) && adv(old(self).rv(), final(self).rv(), leb_len(old(self).rv().bytes)) && v as nat == uleb_value(old(self).rv().bytes)',
-        '[C01:frame] within(old(self).rv(), final(self).rv())', 'leb_len(old(self).rv().bytes) >= 1'])
+        f'[C09:uleb-value] res matches Ok(v) ==> {LEBADV} && v as nat == {O}.uleb(0)',
+        f'[C01:frame] within({O}, {F})', f'{O}.leb_len(0) >= 1'])
     reader.splice('read_uleb128_u16', ret='res', ensures=[
-        '[C09:uleb-value] res matches Ok(v) ==> leb_terminated(old(self).rv().bytes) && adv(old(self).rv(), final(self).rv(), leb_len(old(self).rv().bytes)) && v as nat == uleb_value(old(self).rv().bytes)',
-        '[C01:frame] within(old(self).rv(), final(self).rv())', 'leb_len(old(self).rv().bytes) >= 1'])
+        f'[C09:uleb-value] res matches Ok(v) ==> {LEBADV} && v as nat == {O}.uleb(0)',
+        f'[C01:frame] within({O}, {F})', f'{O}.leb_len(0) >= 1'])
     reader.splice('read_sleb128', ret='res', ensures=[
-        '[C09:sleb-value] res matches Ok(v) ==> leb_terminated(old(self).rv().bytes) && adv(old(self).rv(), final(self).rv(), leb_len(old(self).rv().bytes)) && v as int == sleb_value(old(self).rv().bytes)',
-        '[C01:frame] within(old(self).rv(), final(self).rv())', 'leb_len(old(self).rv().bytes) >= 1'])
-    reader.splice('is_empty', ret='res', ensures=['res == (self.rv().bytes.len() == 0)'])
+        f'[C09:sleb-value] res matches Ok(v) ==> {LEBADV} && v as int == {O}.sleb(0)',
+        f'[C01:frame] within({O}, {F})', f'{O}.leb_len(0) >= 1'])
+    reader.splice('is_empty', ret='res', ensures=['res == (self.rv().len == 0)'])
     # default methods verified with their real bodies
     reader.splice('read_null_terminated_slice', ret='res', ensures=[
-        '[C10:view] res matches Ok(r) ==> exists|n: nat| #![auto] n < old(self).rv().bytes.len() && old(self).rv().bytes[n as int] == 0 && (forall|j: int| 0 <= j < n ==> old(self).rv().bytes[j] != 0) && window(old(self).rv(), r.rv(), 0, n) && adv(old(self).rv(), final(self).rv(), n + 1)',
-        '[C01:frame] within(old(self).rv(), final(self).rv())'])
+        f'[C10:view] res matches Ok(r) ==> r.rv().len < {O}.len && {O}.at(r.rv().len as int) == 0 && (forall|j: int| 0 <= j < r.rv().len ==> {O}.at(j) != 0) && window({O}, r.rv(), 0, r.rv().len) && adv({O}, {F}, r.rv().len + 1)',
+        f'[C01:frame] within({O}, {F})'])
     reader.splice('read_initial_length', ret='res', ensures=[
-        '[C09:initial-length] res matches Ok(p) ==> ({ let w = uint_of(old(self).rv().bytes.take(4), old(self).rv().be); '
-        '(w < 0xffff_fff0 ==> p.1 == Format::Dwarf32 && p.0.as_nat() == w && adv(old(self).rv(), final(self).rv(), 4)) && '
-        '(w >= 0xffff_fff0 ==> w == 0xffff_ffff && p.1 == Format::Dwarf64 && p.0.as_nat() == uint_of(old(self).rv().bytes.subrange(4, 12), old(self).rv().be) && adv(old(self).rv(), final(self).rv(), 12)) })',
-        '[C09:initial-length-reserved] old(self).rv().bytes.len() >= 4 && 0xffff_fff0 <= uint_of(old(self).rv().bytes.take(4), old(self).rv().be) < 0xffff_ffff ==> res is Err',
-        '[C01:frame] within(old(self).rv(), final(self).rv())'])
+        f'[C09:initial-length] res matches Ok(p) ==> ({{ let w = {O}.u(0, 4); '
+        f'(w < 0xffff_fff0 ==> p.1 == Format::Dwarf32 && p.0.as_nat() == w && adv({O}, {F}, 4)) && '
+        f'(w >= 0xffff_fff0 ==> w == 0xffff_ffff && p.1 == Format::Dwarf64 && p.0.as_nat() == {O}.u(4, 8) && adv({O}, {F}, 12)) }})',
+        f'[C09:initial-length-reserved] {O}.len >= 4 && 0xffff_fff0 <= {O}.u(0, 4) < 0xffff_ffff ==> res is Err',
+        f'[C01:frame] within({O}, {F})'])
     reader.splice('read_address_size', ret='res', ensures=[
-        '[C01:address-size-validated] res matches Ok(s) ==> valid_address_size(s) && s == old(self).rv().bytes[0] && adv(old(self).rv(), final(self).rv(), 1)',
-        '[C01:frame] within(old(self).rv(), final(self).rv())'])
-    reader.splice('read_address', ret='res', before=[('match address_size {', 'proof { reveal_with_fuel(uint_le, 3); reveal_with_fuel(uint_be, 3); }')], ensures=[
-        '[C09:address] res matches Ok(v) ==> valid_address_size(address_size) && adv(old(self).rv(), final(self).rv(), address_size as nat) && v as nat == uint_of(old(self).rv().bytes.take(address_size as int), old(self).rv().be)',
+        f'[C01:address-size-validated] res matches Ok(s) ==> valid_address_size(s) && s == {O}.at(0) && adv({O}, {F}, 1)',
+        f'[C01:frame] within({O}, {F})'])
+    FUEL1 = 'proof { reveal_with_fuel(uint_le_at, 3); reveal_with_fuel(uint_be_at, 3); }'
+    reader.splice('read_address', ret='res', before=[('match address_size {', FUEL1)], ensures=[
+        f'[C09:address] res matches Ok(v) ==> valid_address_size(address_size) && adv({O}, {F}, address_size as nat) && v as nat == {O}.u(0, address_size as int)',
         '[C09:address-size-reject] !valid_address_size(address_size) ==> res is Err',
-        '[C01:err-no-consume] res is Err ==> unch(old(self).rv(), final(self).rv())'])
-    WORD = 'adv(old(self).rv(), final(self).rv(), word_size(format)) && v.as_nat() == uint_of(old(self).rv().bytes.take(word_size(format) as int), old(self).rv().be)'
+        f'[C01:err-no-consume] res is Err ==> unch({O}, {F})'])
+    WORD = f'adv({O}, {F}, word_size(format)) && v.as_nat() == {O}.u(0, word_size(format) as int)'
     for n in ['read_word', 'read_length', 'read_offset']:
         reader.splice(n, ret='res', ensures=[
             f'[C09:word] res matches Ok(v) ==> {WORD}',
-            '[C01:frame] within(old(self).rv(), final(self).rv())'])
-    reader.splice('read_sized_offset', ret='res', before=[('match size {', 'proof { reveal_with_fuel(uint_le, 3); reveal_with_fuel(uint_be, 3); }')], ensures=[
-        '[C09:sized-offset] res matches Ok(v) ==> valid_address_size(size) && adv(old(self).rv(), final(self).rv(), size as nat) && v.as_nat() == uint_of(old(self).rv().bytes.take(size as int), old(self).rv().be)',
+            f'[C01:frame] within({O}, {F})'])
+    reader.splice('read_sized_offset', ret='res', before=[('match size {', FUEL1)], ensures=[
+        f'[C09:sized-offset] res matches Ok(v) ==> valid_address_size(size) && adv({O}, {F}, size as nat) && v.as_nat() == {O}.u(0, size as int)',
         '[C09:sized-offset-reject] !valid_address_size(size) ==> res is Err',
-        '[C01:frame] within(old(self).rv(), final(self).rv())'])
+        f'[C01:frame] within({O}, {F})'])
     sk.add('read::reader', reader)
+    # R-CLONE: `x.clone()` on a reader is rewritten (per item, logged) to reader_clone(&x); the contract "a clone has the
+    # same view" is an assumption about Reader implementations (derive(Clone)/Copy for the shipped readers; K-ESLICE/K-SUBRANGE)
+    sk.add('read::reader', """
+#[verifier::external_body]
+pub fn reader_clone<R: Reader>(r: &R) -> (res: R)
+    ensures res.rv() == r.rv()
+{ r.clone() }
+""", label='reader_clone')
 
-    # ---- EndianSlice
-    sk.module('read::endian_slice', '''use core::fmt;
-use core::ops::{Deref, Range, RangeFrom, RangeTo};
-use core::str;
-use crate::endianity::Endianity;
-use crate::read::{Error, Reader, ReaderOffsetId, Result};
-use crate::read::reader::*;
-use crate::vspec::*;
-broadcast use crate::vspec::group_seq_views;''')
-    ess = es.item(r'^pub struct EndianSlice<', label='EndianSlice').clean()
-    ess.prepend('#[derive(Debug)]')
-    sk.add('read::endian_slice', ess)
-    esi = es.item(r"^impl<'input, Endian> EndianSlice<'input, Endian>", label='EndianSlice(inherent)')
-    esi.drop(['to_string', 'to_string_lossy', 'find', 'offset_from', 'split_at'])
-    esi.clean()
-    esi.own(['C01', 'C10'])
-    esi.splice('new', ret='res', ensures=['res.rv().bytes == slice@', 'res.rv().be == endian.big()'])
-    esi.splice('slice', ret='res', ensures=['[C10:view] res@ == self.rv().bytes'])
-    esi.splice('read_slice', ret='res', ensures=[
-        '[C10:view] res matches Ok(v) ==> old(self).slice@.len() >= len && v@ == old(self).slice@.take(len as int) && final(self).slice@ == old(self).slice@.skip(len as int) && final(self).endian == old(self).endian',
-        '[C01:bounds] res is Err ==> final(self).slice@ == old(self).slice@ && final(self).endian == old(self).endian && old(self).slice@.len() < len',
-        'res is Err <==> old(self).slice@.len() < len'], canary=True)
-    sk.add('read::endian_slice', esi)
-    esr = es.item(r"^impl<'input, Endian> Reader for EndianSlice<'input, Endian>", label='Reader for EndianSlice')
-    esr.drop(['to_slice', 'to_string', 'to_string_lossy'])
-    esr.extbody(['offset_from', 'offset_id', 'lookup_offset_id', 'find'])
-    esr.clean(offset=False)
-    esr.own(['C01', 'C10'])
-    VIEW = '''
-    closed spec fn rv(&self) -> RView { RView { bytes: self.slice@, be: self.endian.big(), tracks: false, sec: 0, pos: 0 } }
-'''
-    sigs = {'read_u8': 'u8', 'read_i8': 'i8', 'read_u16': 'u16', 'read_i16': 'i16', 'read_u32': 'u32', 'read_i32': 'i32',
-            'read_u64': 'u64', 'read_i64': 'i64', 'read_u128': 'u128', 'read_f32': 'f32', 'read_f64': 'f64',
-            'read_uleb128': 'u64', 'read_uleb128_u32': 'u32', 'read_uleb128_u16': 'u16', 'read_sleb128': 'i64', 'skip_leb128': '()'}
-    STUBS = ''
-    for nm, ty in sigs.items():
-        STUBS += f'    #[verifier::external_body]\n    fn {nm}(&mut self) -> Result<{ty}> {{ unimplemented!() }}\n'
-        ctx.extbody.append(f'read/endian_slice.rs:Reader for EndianSlice::{nm} [R-STUB]')
-    STUBS += '    #[verifier::external_body]\n    fn read_uint(&mut self, n: usize) -> Result<u64> { unimplemented!() }\n'
-    ctx.extbody.append('read/endian_slice.rs:Reader for EndianSlice::read_uint [R-STUB]')
-    ctx.count('R-STUB', len(sigs) + 1)
-    esr.insert_after('type Offset = usize;', VIEW + STUBS)
-    sk.add('read::endian_slice', esr)
     return sk
 
 
